@@ -451,7 +451,8 @@ def prob_event_exact(
     prob = 0
 
     for orbit in orbits(photon_number):
-        if max(orbit) <= max_count_per_mode:
+        # orbits with more non-zero entries than modes contain no samples
+        if max(orbit) <= max_count_per_mode and len(orbit) <= graph.order():
             prob += prob_orbit_exact(graph, orbit, n_mean, loss)
     return prob
 
